@@ -276,14 +276,20 @@ func (l *fileBasedLoader) Discover(c px.Context, predicate func(px.TypedName) bo
 	l.ensureAllIndexed()
 	found := l.parent.Discover(c, predicate)
 	added := false
+	l.lock.RLock()
+	keys := make([]string, 0, 16)
 	for _, index := range l.index {
 		for k := range index {
-			tn := px.TypedNameFromMapKey(k)
-			if !l.parent.HasEntry(tn) {
-				if predicate(tn) {
-					found = append(found, tn)
-					added = true
-				}
+			keys = append(keys, k)
+		}
+	}
+	l.lock.RUnlock()
+	for _, k := range keys {
+		tn := px.TypedNameFromMapKey(k)
+		if !l.parent.HasEntry(tn) {
+			if predicate(tn) {
+				found = append(found, tn)
+				added = true
 			}
 		}
 	}
@@ -307,6 +313,8 @@ func (l *fileBasedLoader) HasEntry(name px.TypedName) bool {
 		return true
 	}
 
+	l.lock.Lock()
+	defer l.lock.Unlock()
 	if paths, ok := l.paths[name.Namespace()]; ok {
 		for _, sm := range paths {
 			index := l.ensureIndexed(sm)
